@@ -604,7 +604,7 @@ func eval(args []string) {
 				same = false
 			}
 		}
-		e.verdict("C14", p.ID+"/repeat", same && len(s.SHARuns) > 0, "repeat", fmt.Sprintf("%d repeated runs produced different outputs", len(s.SHARuns)))
+		e.verdict("C14", p.ID+"/repeat", same && len(s.SHARuns) > 0, "repeat", fmt.Sprintf("%d repeated runs (the last one with a pristine home, cache and temporary directory; then the target package probe) produced different outputs: %s", len(s.SHARuns), strings.Join(s.SHARuns, " ")))
 	}
 	e.families()
 	e.out.Flush()
